@@ -437,159 +437,50 @@ harness!(vm_get_field, unwind = 4, {
     forget(r); forget(state); forget(program);
 });
 
+/// Receiver is the object (concrete reference): name and value symbolic.
 harness!(vm_set_field, unwind = 4, {
     let program = field_program();
     let x = any_pointer(2);
     let (mut state, sentinel, _l0, _l1) = base_state(0);
     state.heap = Heap::from(field_heap(x));
-    let recv = any_pointer(2);
     let v = any_pointer(2);
-    state.operand_stack.push(recv); // object first (deeper), value on top: index-before-value as pushed (C13)
+    state.operand_stack.push(Pointer::Reference(HeapIndex::from(0usize))); // object first (deeper), value on top (C13)
     state.operand_stack.push(v);
     let index = any_u8_below(5) as u16;
     let r = eval_set_field(&program, &mut state, &cpi(index));
-    let is_object = recv == Pointer::Reference(HeapIndex::from(0usize));
     witness!(r.is_ok(), "W: field written");
-    witness!(r.is_err() && is_object, "W: unknown field rejected");
-    if is_object && index == 0 {
+    witness!(r.is_err(), "W: unknown field rejected");
+    if index == 0 {
         assert!(r.is_ok(), "C05: set slot of an existing field failed");
         assert!(field_of(&state) == Some(v), "C14: set slot did not update the object in place");
         assert!(stack_is(&mut state, &[Pointer::Integer(sentinel), v]), "C05: set slot must push the stored value");
         assert!(ip_of(&state) == Some(1), "C05: instruction pointer");
     } else {
-        assert!(r.is_err(), "C10: set slot on a non-object / unknown field / non-string constant did not fail");
+        assert!(r.is_err(), "C10: set slot of an unknown field / non-string constant did not fail");
     }
     assert!(heap_len(&state, 3) == 2, "C16: set slot allocated");
     forget(r); forget(state); forget(program);
 });
 
-// ---------------------------------------------------------------------------------------------
-// Array built-ins through CallMethod: get(i) / set(i, v) with bounds and kinds; anything else fails.
-
-fn array_heap(e0: Pointer, e1: Pointer) -> Vec<HeapObject> {
-    let mut e = Vec::with_capacity(2);
-    e.push(e0);
-    e.push(e1);
-    let mut mem = Vec::with_capacity(2);
-    mem.push(HeapObject::from_pointers(e));
-    mem
-}
-
-fn element(state: &State, i: usize) -> Option<Pointer> {
-    match state.heap.dereference(&HeapIndex::from(0usize)) {
-        Ok(HeapObject::Array(a)) => a.get_element(i).ok().map(|p| *p),
-        _ => None,
-    }
-}
-
-harness!(vm_array_get, unwind = 5, {
-    let mut cp = Vec::with_capacity(1);
-    cp.push(ProgramObject::String("get".to_string()));
-    let program = prog(filler_code(2), cp);
-    let (e0, e1) = (any_pointer(1), any_pointer(1));
-    let (mut state, sentinel, _l0, _l1) = base_state(0);
-    state.heap = Heap::from(array_heap(e0, e1));
-    let idx = any_pointer(1);
-    state.operand_stack.push(Pointer::Reference(HeapIndex::from(0usize)));
-    state.operand_stack.push(idx);
-    let r = eval_call_method(&program, &mut state, &cpi(0), &Arity::new(2));
-    witness!(r.is_ok(), "W: element read");
-    witness!(r.is_err(), "W: index rejected");
-    match idx {
-        Pointer::Integer(i) if i >= 0 && i < 2 => {
-            assert!(r.is_ok(), "C14: array get inside the bounds failed");
-            assert!(stack_is(&mut state, &[Pointer::Integer(sentinel), if i == 0 { e0 } else { e1 }]), "C14: array get returned a different element");
-            assert!(ip_of(&state) == Some(1), "C05: instruction pointer");
-        }
-        _ => { assert!(r.is_err(), "C10: array get with an out-of-range or non-integer index did not fail"); }
-    }
-    assert!(element(&state, 0) == Some(e0) && element(&state, 1) == Some(e1) && heap_len(&state, 2) == 1, "C14/C16: array get modified the heap");
-    forget(r); forget(state); forget(program);
-});
-
-harness!(vm_array_set, unwind = 5, {
-    let mut cp = Vec::with_capacity(1);
-    cp.push(ProgramObject::String("set".to_string()));
-    let program = prog(filler_code(2), cp);
-    let (e0, e1) = (any_pointer(1), any_pointer(1));
-    let (mut state, sentinel, _l0, _l1) = base_state(0);
-    state.heap = Heap::from(array_heap(e0, e1));
-    let idx = any_pointer(1);
-    let v = any_pointer(1);
-    state.operand_stack.push(Pointer::Reference(HeapIndex::from(0usize)));
-    state.operand_stack.push(idx); // index before value, as pushed (C13)
-    state.operand_stack.push(v);
-    let r = eval_call_method(&program, &mut state, &cpi(0), &Arity::new(3));
-    witness!(r.is_ok(), "W: element written");
-    witness!(r.is_err(), "W: index rejected");
-    match idx {
-        Pointer::Integer(i) if i >= 0 && i < 2 => {
-            assert!(r.is_ok(), "C14: array set inside the bounds failed");
-            assert!(element(&state, 0) == Some(if i == 0 { v } else { e0 }) && element(&state, 1) == Some(if i == 1 { v } else { e1 }),
-                    "C14: array set wrote a different element or value (index-before-value order, C13)");
-            assert!(ip_of(&state) == Some(1), "C05: instruction pointer");
-            // the result of set is a value (the README does not say which); exactly one value replaces the operands
-            let top = state.operand_stack.pop();
-            assert!(top.is_ok(), "C05: array set left no result");
-            forget(top);
-            assert!(stack_is(&mut state, &[Pointer::Integer(sentinel)]), "C05: array set did not pop its three operands");
-        }
-        _ => {
-            assert!(r.is_err(), "C10: array set with an out-of-range or non-integer index did not fail");
-            assert!(element(&state, 0) == Some(e0) && element(&state, 1) == Some(e1), "C10: failing array set modified the array");
-        }
-    }
-    assert!(heap_len(&state, 2) == 1, "C16: array set allocated");
-    forget(r); forget(state); forget(program);
-});
-
-/// Arrays have no other methods, and get/set check their argument count.
-harness!(vm_array_other, unwind = 5, {
-    let which = any_u8_below(3);
-    let mut cp = Vec::with_capacity(1);
-    cp.push(ProgramObject::String(if which == 0 { "get".to_string() } else if which == 1 { "set".to_string() } else { "len".to_string() }));
-    let program = prog(filler_code(2), cp);
+/// Receiver is anything but an object: always a failure, the heap stays as it was.
+harness!(vm_set_field_non_object, unwind = 4, {
+    let program = field_program();
     let (mut state, _sentinel, _l0, _l1) = base_state(0);
-    state.heap = Heap::from(array_heap(Pointer::Null, Pointer::Null));
-    state.operand_stack.push(Pointer::Reference(HeapIndex::from(0usize)));
-    state.operand_stack.push(Pointer::Integer(0));
-    state.operand_stack.push(Pointer::Integer(0));
-    // get with 2 arguments (arity 3) / set with 1 argument (arity 2) / unknown method
-    let arity = if which == 0 { 3 } else { 2 };
-    let r = eval_call_method(&program, &mut state, &cpi(0), &Arity::new(arity));
-    witness!(r.is_err() && which == 2, "W: unknown array method rejected");
-    assert!(r.is_err(), "C14: array accepted a wrong argument count or an undefined method");
+    state.heap = Heap::from(field_heap(Pointer::Integer(3)));
+    let recv = any_pointer(2);
+    kani::assume(recv != Pointer::Reference(HeapIndex::from(0usize)));
+    state.operand_stack.push(recv);
+    state.operand_stack.push(any_pointer(2));
+    let r = eval_set_field(&program, &mut state, &cpi(0));
+    witness!(r.is_err(), "W: non-object receiver rejected");
+    assert!(r.is_err(), "C10: set slot on a non-object did not fail");
+    assert!(field_of(&state) == Some(Pointer::Integer(3)) && heap_len(&state, 3) == 2, "C10: failing set slot modified the heap");
     forget(r); forget(state); forget(program);
 });
 
-// ---------------------------------------------------------------------------------------------
-// C14 reference semantics: two stack pointers to the same cell observe each other's writes; primitives are values.
-
-harness!(vm_aliasing, unwind = 5, {
-    let mut cp = Vec::with_capacity(2);
-    cp.push(ProgramObject::String("set".to_string()));
-    cp.push(ProgramObject::String("get".to_string()));
-    let program = prog(filler_code(3), cp);
-    let (mut state, sentinel, _l0, _l1) = base_state(0);
-    state.heap = Heap::from(array_heap(Pointer::Null, Pointer::Null));
-    let alias_a = Pointer::Reference(HeapIndex::from(0usize));
-    let alias_b = alias_a; // Pointer is Copy: an alias is the same heap index
-    let v = any_pointer(1);
-    let i = any_u8_below(2) as i32;
-    state.operand_stack.push(alias_a);
-    state.operand_stack.push(Pointer::Integer(i));
-    state.operand_stack.push(v);
-    let r1 = eval_call_method(&program, &mut state, &cpi(0), &Arity::new(3));
-    assert!(r1.is_ok());
-    forget(state.operand_stack.pop());
-    state.operand_stack.push(alias_b);
-    state.operand_stack.push(Pointer::Integer(i));
-    let r2 = eval_call_method(&program, &mut state, &cpi(1), &Arity::new(2));
-    witness!(r2.is_ok(), "W: read through the alias");
-    assert!(r2.is_ok(), "C14: read through an alias failed");
-    assert!(stack_is(&mut state, &[Pointer::Integer(sentinel), v]), "C14: a write through one alias is not visible through the other");
-    forget(r1); forget(r2); forget(state); forget(program);
-});
+// Array built-ins (get / set through CallMethod), aliasing, object-method calls, function calls and object creation are
+// decided on their MIR by smt/vm_kernels.py: a reference receiver makes CBMC explore the whole object-dispatch
+// recursion (eval_call_method on a two-element array ran out of 12 GB).
 
 // ---------------------------------------------------------------------------------------------
 // C10 (iii): the loop stops at the first failing instruction; nothing after it runs.
